@@ -1,10 +1,10 @@
+import sys
 from typing import TypeVar, cast
 
 from reactivex import Observable, abc, typing
 from reactivex import operators as ops
 from reactivex.internal import curry_flip
 from reactivex.internal.basic import identity
-from reactivex.internal.utils import infinite
 from reactivex.typing import Mapper, MapperIndexed
 
 _T1 = TypeVar("_T1")
@@ -78,7 +78,7 @@ def map_indexed_(
     _mapper_indexed = mapper_indexed or cast(typing.MapperIndexed[_T1, _T2], _identity)
 
     return source.pipe(
-        ops.zip_with_iterable(infinite()),
+        ops.zip_with_iterable(range(sys.maxsize)),  # re-iterable: indices restart per subscription
         ops.starmap_indexed(_mapper_indexed),  # type: ignore
     )
 
